@@ -22,6 +22,7 @@ type dgen struct {
 	d     *spec.Design
 	feats map[string]bool
 	seq   int
+	svcLevelErr string
 	focus string // "", "views", "security", "dir" (what generated FILES depend on: several media types per endpoint): biases the draw towards the features a property is about
 }
 
@@ -185,7 +186,7 @@ func (g *dgen) bodyType(depth int) *spec.Attr {
 		if len(g.d.Types) > 0 && t.Draw("reuse-type", 2) == 0 {
 			var plain []*spec.UserType
 			for _, u := range g.d.Types {
-				if !u.IsResult {
+				if !u.IsResult && !u.IsError {
 					plain = append(plain, u)
 				}
 			}
@@ -527,7 +528,7 @@ func (g *dgen) method(svc *spec.Service, idx int) *spec.Method {
 				dup = true
 			}
 		}
-		if dup {
+		if dup || e.Name == g.svcLevelErr {
 			continue
 		}
 		if used[e.Status] {
@@ -539,6 +540,60 @@ func (g *dgen) method(svc *spec.Service, idx int) *spec.Method {
 		g.feat("errors:declared")
 	}
 	return m
+}
+
+// customError may give a pool error a designed type of its own: a string, or an
+// object type (possibly shared with an earlier error of the service, told apart by
+// its ErrorName attribute), optionally with one attribute carried in a header.
+func (g *dgen) customError(s *spec.Service, e *spec.ErrorDef) {
+	t := g.t
+	k := t.Pick("err-type", 6, 1, 2, 2)
+	if k == 0 {
+		return
+	}
+	e.Temporary, e.Timeout, e.Fault = false, false, false // flags belong to the default error type
+	if k == 1 {
+		e.Type = &spec.Type{Kind: spec.String}
+		g.feat("errors:custom-string")
+		return
+	}
+	if k == 3 {
+		for _, x := range s.Errors {
+			if x.Type != nil && x.Type.Kind == spec.User && x.NameField != "" {
+				e.Type, e.NameField, e.Headers = x.Type, x.NameField, x.Headers
+				g.feat("errors:custom-shared-type")
+				return
+			}
+		}
+	}
+	g.seq++
+	obj := &spec.Type{Kind: spec.Object}
+	obj.Fields = append(obj.Fields, &spec.Attr{Name: "message", Type: &spec.Type{Kind: spec.String}, Required: true})
+	if k == 3 || t.Draw("err-name-field", 3) != 0 {
+		e.NameField = "name"
+		obj.Fields = append(obj.Fields, &spec.Attr{Name: "name", Type: &spec.Type{Kind: spec.String}, Required: true, ErrName: true})
+	}
+	code := g.prim(LocHeader)
+	for code.Type.Kind == spec.Bytes || code.Type.Kind == spec.Any {
+		code = g.prim(LocHeader)
+	}
+	code.Name = "code"
+	g.requiredOrDefault(code)
+	obj.Fields = append(obj.Fields, code)
+	if t.Draw("err-detail", 2) == 0 {
+		f := g.bodyType(1)
+		f.Name = "detail"
+		g.requiredOrDefault(f)
+		obj.Fields = append(obj.Fields, f)
+	}
+	u := &spec.UserType{Name: fmt.Sprintf("E%dFailure", g.seq), Attr: &spec.Attr{Type: obj}, IsError: true}
+	g.d.Types = append(g.d.Types, u)
+	e.Type = &spec.Type{Kind: spec.User, Name: u.Name}
+	if t.Draw("err-header", 2) == 0 {
+		e.Headers = map[string]string{"code": "X-Err-Code"}
+		g.feat("errors:custom-header")
+	}
+	g.feat("errors:custom-object")
 }
 
 // GenDesign draws one design named name.
@@ -565,18 +620,49 @@ func GenDesign(t *verifsim.Tape, name, focus string) *spec.Design {
 			case 4:
 				e.Temporary, e.Timeout = true, true
 			}
+			if len(s.Errors) > 0 && t.Draw("err-same-status", 3) == 0 {
+				e.Status = s.Errors[len(s.Errors)-1].Status // told apart by the goa-error header only
+			}
+			g.customError(s, e)
 			s.Errors = append(s.Errors, e)
 		}
 		if len(g.d.Schemes) > 0 && t.Draw("svc-security", 3) == 0 {
 			s.Security = g.requirements()
 			g.feat("security:service-level")
 		}
+		g.svcLevelErr = ""
+		if t.Draw("svc-level-error", 3) == 0 {
+			g.svcLevelErr = s.Errors[t.Draw("which-svc-error", len(s.Errors))].Name
+			g.feat("errors:service-level")
+		}
 		nm := 1 + t.Pick("nmethods", 3, 3, 2, 1)
 		for j := 0; j < nm; j++ {
 			s.Methods = append(s.Methods, g.method(s, j))
 		}
-		s.Errors = nil // the pool is only declared on the methods that use it
+		pool := s.Errors
+		s.Errors = nil // the pool is only declared on the methods that use it ...
+		for _, e := range pool {
+			if e.Name == g.svcLevelErr {
+				s.Errors = []*spec.ErrorDef{e} // ... except the one every method of the service inherits
+			}
+		}
 		g.d.Services = append(g.d.Services, s)
+	}
+	if t.Draw("api-level-error", 4) == 0 {
+		// an error whose HTTP response is mapped once at API level; methods opt in by declaring its name
+		e := &spec.ErrorDef{Name: "api_wide", Status: []int{418, 429, 451}[t.Draw("api-err-status", 3)]}
+		e.Temporary = t.Draw("api-err-tmp", 2) == 0
+		g.d.Errors = []*spec.ErrorDef{e}
+		for _, s := range g.d.Services {
+			for _, m := range s.Methods {
+				if t.Draw("uses-api-error", 2) == 0 {
+					cp := *e
+					cp.Inherit = "api"
+					m.Errors = append(m.Errors, &cp)
+					g.feat("errors:api-level")
+				}
+			}
+		}
 	}
 	for f := range g.feats {
 		g.d.Features = append(g.d.Features, f)
